@@ -80,6 +80,12 @@ VARIANTS = [
     ("C12", "stride", QSVD, r"s = S\[::4\]\[:R\]\n\n    # 6\)", "s = S[:R]\n\n    # 6)", "F"),
     ("C12", "lift pairing", QSVD, r"V_quat = quat_matmat\(Q2, V_small\)\n    U_quat = quat_matmat\(Q1, U_small\)\n\n    return U_quat, s, V_quat\n\n\ndef pass_eff",
      "V_quat = quat_matmat(Q1, V_small)\n    U_quat = quat_matmat(Q1, U_small)\n\n    return U_quat, s, V_quat\n\n\ndef pass_eff", "F"),
+    ("C07", "rank-1 update skipped when the multipliers have zero real part", LU,
+     r"            # Update: submatrix = submatrix - col_vector \* row_vector\n",
+     "            if not np.any(quaternion.as_float_array(col_vector)[..., 0]):\n                continue\n", "F"),
+    ("C07", "rank-1 update skipped when the multipliers are entirely zero (equivalent)", LU,
+     r"            # Update: submatrix = submatrix - col_vector \* row_vector\n",
+     "            if not np.any(quaternion.as_float_array(col_vector)):\n                continue\n", "S"),
     # ---- C08 / C09 / C10
     ("C08", "general eigen-solver", EIG, r"np\.linalg\.eigh\(B_complex\)", "np.linalg.eig(B_complex)", "F"),
     ("C08", "accumulation order", TRI, r"P = quat_matmat\(Q, P\)", "P = quat_matmat(P, Q)", "F"),
